@@ -266,3 +266,50 @@ def current_request_rule(ctx, rule):
                     why = 'the request fetched (`%s`) is not the one published as item_session.request' % (norm_text(a) if a is not None else '?')
     ck.expect(ok, rule, pl.qual, 'item_session.request = next request, before the verdict and the fetch, and the request fetched',
               'the request the filters judge and the scrapers use as base URL is not the request of the current hop: %s' % why, pl.loc(loops[0]))
+
+
+def robots_after_verdict_rule(ctx, rule):
+    """FetchRule.check_initial_web_request: robots.txt is consulted (and so possibly fetched) only for a request the filters
+    accepted.  A robots.txt request for a URL the filters turned down is a request to an origin that is not being visited
+    (C02), and for an error row the retry limit has rejected it is a request - and, when it fails, another error check-in -
+    the limit was meant to end (C18)."""
+    import ast
+    from .. import flow as F
+    from .. import util as U
+    from ..index import AnalysisError
+    repo, ck = ctx.repo, ctx.check
+    fr = repo.cls('wpull.processor.rule:FetchRule')
+    sites = 0
+    for m in fr.methods.values():
+        if m.name in ('consult_robots_txt',):
+            continue
+        cfg = ctx.cfg(m)
+        goals = [n for n in cfg.stmt_nodes() if any(U.attr_name(c) in ('consult_robots_txt', 'can_fetch', 'fetch_robots_txt') for c in F.node_calls(n))]
+        if not goals:
+            continue
+        defs = U.local_defs(m.node)
+        # names unpacked from / assigned the result of consult_filters(...)
+        anodes, vnames = [], set()
+        for n in cfg.stmt_nodes():
+            st = n.stmt
+            if isinstance(st, ast.Assign) and isinstance(st.value, ast.Call) and U.attr_name(st.value) == 'consult_filters':
+                t = st.targets[0]
+                if isinstance(t, ast.Tuple) and t.elts and isinstance(t.elts[0], ast.Name):
+                    anodes.append(n)
+                    vnames.add(t.elts[0].id)
+        for g in goals:
+            sites += 1
+            ok = bool(anodes) and len(vnames) == 1
+            why = 'no filter verdict is computed before robots.txt is consulted'
+            if ok:
+                v = next(iter(vnames))
+                if cfg.find_path(cfg.entry, lambda x, g=g: x is g, edge_ok=F.normal, stop=lambda x: x in anodes) is not None:
+                    ok = False
+                for a in anodes:
+                    if ok and F.feasible_path(cfg, a, lambda x, g=g: x is g, edge_ok=F.normal, init={(v, 0): frozenset({'eq'})}) is not None:
+                        ok = False
+                        why = 'robots.txt is consulted on a path on which the filter verdict is false'
+            ck.expect(ok, rule, m.qual, 'robots.txt is consulted only after a true filter verdict', why + ': a URL the filters (or the retry '
+                      'limit) turned down still causes a /robots.txt request to its origin, and a failing one checks the item in as error again', m.loc(g.stmt))
+    if sites == 0:
+        raise AnalysisError('FetchRule: no site consults robots.txt')
